@@ -405,3 +405,29 @@ def all_calls(body, name=None):
                     yield s
                 elif s[0] == "mcall" and (name is None or s[2] == name):
                     yield s
+
+
+def callee(s):
+    """name of the function/method a call expression invokes (works for dependent calls in templates too)"""
+    if s[0] == "mcall":
+        return s[2]
+    if s[0] == "call":
+        if isinstance(s[1], str):
+            return s[1]
+        if isinstance(s[1], tuple) and s[1][0] == "member":
+            return s[1][2]
+        if isinstance(s[1], tuple) and s[1][0] == "var":
+            return s[1][1]
+    return None
+
+
+def receiver(s):
+    if s[0] == "mcall":
+        return s[1]
+    if s[0] == "call" and isinstance(s[1], tuple) and s[1][0] == "member":
+        return s[1][1]
+    return None
+
+
+def call_args(s):
+    return s[3] if s[0] == "mcall" else s[2]
